@@ -93,6 +93,23 @@ def observe(base, res):
     n = len(truth)
     bad = res["bad"]
 
+    class guard(object):
+        """an exception escaping one of the extraction functions is a finding about that call, not a harness failure
+        (a with-block, not a helper function: nothing may be added to the stack that is being measured)"""
+
+        def __init__(s, tag):
+            s.tag = tag
+
+        def __enter__(s):
+            return s
+
+        def __exit__(s, et, ev, tb):
+            if ev is not None and isinstance(ev, Exception):
+                res["cnt"] += 1
+                bad.append((s.tag, "raised", None, repr(ev)[:200]))
+                return True
+            return False
+
     def chk(tag, st, exp):
         res["cnt"] += 1
         got = [f.pyframe for f in st.frames]
@@ -123,25 +140,30 @@ def observe(base, res):
                 exp = allf[lo:hi + 1]
                 if lim is not None and len(exp) > lim:
                     exp = exp[:lim] if (i is None and o is not None) else exp[-lim:]
-                chk(("slice", oi, ii, lim), extract(StackSlice(outer=o, inner=i, limit=lim), with_contexts=False), exp)
+                with guard(("slice", oi, ii, lim)):
+                    chk(("slice", oi, ii, lim), extract(StackSlice(outer=o, inner=i, limit=lim), with_contexts=False), exp)
         if oi is not None:
-            chk(("since", oi), extract_since(truth[oi], with_contexts=False), allf[allf.index(truth[oi]):])
+            with guard(("since", oi)):
+                chk(("since", oi), extract_since(truth[oi], with_contexts=False), allf[allf.index(truth[oi]):])
     for ii in range(n):
         for lim in [None] + list(range(1, n + 2)):
             exp = allf[:allf.index(truth[ii]) + 1]
             if lim is not None:
                 exp = exp[-lim:]
-            chk(("until", ii, lim), extract_until(truth[ii], limit=lim, with_contexts=False), exp)
+            with guard(("until", ii, lim)):
+                chk(("until", ii, lim), extract_until(truth[ii], limit=lim, with_contexts=False), exp)
         # frame-valued limits: frames reachable from truth[ii] by f_back
         f = truth[ii]
         while f is not None:
             if f in allf:
                 exp = allf[allf.index(f):allf.index(truth[ii]) + 1]
-                chk(("until-frame", ii, f.f_code.co_name), extract_until(truth[ii], limit=f, with_contexts=False), exp)
+                with guard(("until-frame", ii, f.f_code.co_name)):
+                    chk(("until-frame", ii, f.f_code.co_name), extract_until(truth[ii], limit=f, with_contexts=False), exp)
             f = f.f_back
     # with_contexts=True must not change the frames
-    st = extract(StackSlice(outer=truth[0]), with_contexts=True)
-    chk(("since0+contexts",), st, allf[allf.index(truth[0]):])
+    with guard(("since0+contexts",)):
+        st = extract(StackSlice(outer=truth[0]), with_contexts=True)
+        chk(("since0+contexts",), st, allf[allf.index(truth[0]):])
 
 
 def configs(tier):
